@@ -146,6 +146,9 @@ func ws2(dst, src float64) float64 { return dst - src }
 // runC09Contended: diff of a file with its exact copy while the copy's lock is held elsewhere for more
 // than a second of real time. Both sides must still be read at ONE clock value, so the result is clean.
 func runC09Contended(c C09Case, ev *Evid) (fs []Finding) {
+	if len(c.Pairs) == 2 {
+		return runC09ContendedGlob(c, ev)
+	}
 	dir := scratchDir()
 	defer os.RemoveAll(dir)
 	now := time.Now().Unix()
@@ -183,6 +186,59 @@ func runC09Contended(c C09Case, ev *Evid) (fs []Finding) {
 		return []Finding{{Property: "C09", Key: "contended-copy-not-clean", Detail: fmt.Sprintf("diff of a file (%s) with its exact copy, the copy's lock being held by another descriptor for 1.3 s: result %v\n%s", p.Src.L, err, tail(readText(filepath.Join(dir, "out.txt")), 400))}}
 	}
 	ev.Count(HashJSON(c)^uint64(now), true, "lock-contended-exact-copy")
+	return nil
+}
+
+// runC09ContendedGlob: a glob diff (default window) over two files at the real clock. The first file's
+// destination lock is held for 2.3 s, so the second file is compared more than two seconds later - and it
+// differs only in a slot one second after the start of the run. Every file is compared up to ITS OWN now, so
+// the difference must be found.
+func runC09ContendedGlob(c C09Case, ev *Evid) (fs []Finding) {
+	dir := scratchDir()
+	defer os.RemoveAll(dir)
+	l := c.Pairs[0].Src.L
+	now := time.Now().Unix()
+	spec := FileSpec{L: l, Fill: minI64(l.Archives[0].Points, 20), FillBase: 1}
+	for _, side := range []string{"src", "dest"} {
+		for _, n := range []string{"a.wsp", "b.wsp"} {
+			if err := buildFile(filepath.Join(dir, side, n), spec, now); err != nil {
+				return []Finding{{Property: "C09", Key: "setup", Detail: err.Error()}}
+			}
+		}
+	}
+	// the late slot: only in src/b.wsp, dated one step after the start (written by a writer two steps ahead)
+	st := l.Archives[0].Step
+	late := alignDown(now, st) + st
+	if err := modifyFile(filepath.Join(dir, "src", "b.wsp"), []SlotWrite{{Arch: 0, T: late, V: 77}}, late+st); err != nil {
+		return []Finding{{Property: "C09", Key: "setup", Detail: err.Error()}}
+	}
+	hold := time.Duration(2*st)*time.Second + 300*time.Millisecond
+	held, release := make(chan struct{}), make(chan struct{})
+	go func() {
+		fd, err := syscall.Open(filepath.Join(dir, "dest", "a.wsp"), syscall.O_RDONLY, 0)
+		if err == nil {
+			syscall.Flock(fd, syscall.LOCK_EX)
+		}
+		close(held)
+		time.Sleep(hold)
+		if err == nil {
+			syscall.Close(fd)
+		}
+		close(release)
+	}()
+	<-held
+	out := filepath.Join(dir, "out.txt")
+	dc := &cmd.DiffCommand{SrcBase: filepath.Join(dir, "src"), SrcRelPath: "*.wsp", DestBase: filepath.Join(dir, "dest"), ArchiveID: c.ArchiveID, TextOut: out}
+	var err error
+	pm := guard(func() { err = dc.Execute() })
+	<-release
+	if pm != "" {
+		return []Finding{{Property: "C09", Key: "diff-panic", Detail: "contended glob diff panicked: " + pm}}
+	}
+	if !errors.Is(err, cmd.ErrDiffFound) {
+		return []Finding{{Property: "C09", Key: "verdict-missed", Detail: fmt.Sprintf("glob diff (%s, default window) whose first file took %v: the second file differs in the slot t=%d (%d s after the start, well before that file was compared) but the result is %v\n%s", l, hold, late, late-now, err, tail(readText(out), 400))}}
+	}
+	ev.Count(HashJSON(c)^uint64(now), true, "lock-contended-glob-late-slot")
 	return nil
 }
 
@@ -587,6 +643,7 @@ func TestC09(t *testing.T) {
 			return []C09Case{
 				{Contended: true, ArchiveID: -1, Pairs: []DiffPair{{Rel: "a.wsp", Src: &FileSpec{L: l1}}}},
 				{Contended: true, ArchiveID: 0, Pairs: []DiffPair{{Rel: "m1/x.wsp", Src: &FileSpec{L: l2}}}},
+				{Contended: true, ArchiveID: -1, Pairs: []DiffPair{{Rel: "a.wsp", Src: &FileSpec{L: l1}}, {Rel: "b.wsp", Src: &FileSpec{L: l1}}}},
 			}
 		},
 	})
